@@ -18,8 +18,10 @@ const pProcClient = core.Module + "/pkg/remoting/processor/client"
 
 func checkC15(r *core.Run) {
 	r.Explain = "Decided statically: (C15.route) the branch commit / rollback processors are registered under the type code of the request type whose body they assert, hand the request's BranchType to GetResourceManager, and reach only BranchCommit resp. BranchRollback of the manager; (C15.echo) the response literal's Xid and BranchId come from the request, BranchStatus from the manager's result and the reply id from the incoming message's ID; (C15.once) exactly one response is sent per request on the path where the manager returned a status, none in a loop, none on its error path; (C15.truth) ResultCodeSuccess only on the nil-error path of the manager call, and for every registered manager (AT, TCC, XA) a success status constant is returned only with a nil error on a path where the phase-two action is known to have succeeded; (C15.state) the processors write no package-level mutable state (requests cannot influence each other's replies). (C15.once, also) a nil return has called the manager and sent the reply; (C15.route, also) GetResourceManager reads its registry under the requested branch type only; NOT decided: concurrency of deliveries on one session (schedule)."
+	r.Explain += " Round 8: (C15.once, also) the listener's OnMessage does not branch on the arrival session before it hands a message to its processor."
 	r.Trusted = []string{"go/types, go/cfg", "CHA over repository types"}
 	w := r.W
+	c15Dispatch(r)
 	type procSpec struct{ reqType, inbound, other, okStatus string }
 	specs := map[string]procSpec{
 		"BranchCommitRequest":   {"BranchCommitRequest", "BranchCommit", "BranchRollback", "BranchStatusPhasetwoCommitted"},
@@ -600,5 +602,46 @@ func c15ReplySession(r *core.Run) {
 	}
 	if n == 0 {
 		r.Bad("C15.route", core.ShortKey(f.Obj)+" reply session depends on this request only", w.Pos(f.Decl.Pos()), "no send with a session argument found")
+	}
+}
+
+// c15Dispatch (C15.once): whether a received message reaches its processor does not depend on the session it
+// arrived on. The reply of a phase-two request is not sent on the arrival session (the sender picks a live session
+// to that coordinator), so "the connection it came from has gone" is no reason to drop the request: in the
+// listener's OnMessage no branch condition mentions the session parameter.
+func c15Dispatch(r *core.Run) {
+	w := r.W
+	n := 0
+	for _, f := range w.SortedFuncs() {
+		if f.Pkg.PkgPath != pGetty || w.IsTestFile(f.Decl.Pos()) || f.Obj.Name() != "OnMessage" || f.Decl.Body == nil {
+			continue
+		}
+		ps := paramObjs(f)
+		if len(ps) == 0 || !isSessionType(ps[0].Type()) {
+			continue
+		}
+		n++
+		r.Sites++
+		r.Fn(f)
+		info := f.Pkg.TypesInfo
+		bad := ""
+		ast.Inspect(f.Decl.Body, func(nd ast.Node) bool {
+			var cond ast.Expr
+			switch x := nd.(type) {
+			case *ast.IfStmt:
+				cond = x.Cond
+			case *ast.SwitchStmt:
+				cond = x.Tag
+			}
+			if cond != nil && mentions(info, cond, ps[0]) {
+				bad = w.Pos(cond.Pos()) + ": " + core.ExprString(cond)
+			}
+			return true
+		})
+		r.Check(bad == "", "C15.once", core.ShortKey(f.Obj)+" hands every message to its processor whatever the arrival session's state", w.Pos(f.Decl.Pos()), "no branch on the session parameter",
+			"the dispatch depends on the arrival session ("+bad+"): a phase-two request read just before its connection dropped is neither executed nor answered, although the reply would go out on another live session to the same coordinator")
+	}
+	if n == 0 {
+		r.Undecided("C15.once", "listener OnMessage(session, message)", "", "not found")
 	}
 }
